@@ -230,6 +230,26 @@ impl<'tcx> Cx<'tcx> {
                             let bytes = inner.inspect_with_uninit_and_ptr_outside_interpreter(0..n);
                             let hex: String = bytes.iter().map(|b| format!("{:02x}", b)).collect();
                             let _ = write!(o, ",\"alloc\":{}", js(&hex));
+                            // follow the first pointer (e.g. `&&str` -> `&str` -> bytes), up to 3 levels
+                            let mut chain: Vec<String> = Vec::new();
+                            let mut cur = a;
+                            for _ in 0..3 {
+                                let ci = cur.inner();
+                                let next = ci.provenance().ptrs().iter().next().map(|(_, p)| p.alloc_id());
+                                match next.and_then(|id| self.alloc_of(id)) {
+                                    Some(t) => {
+                                        let ti = t.inner();
+                                        let m = ti.len().min(256);
+                                        let b2 = ti.inspect_with_uninit_and_ptr_outside_interpreter(0..m);
+                                        chain.push(js(&b2.iter().map(|b| format!("{:02x}", b)).collect::<String>()));
+                                        cur = t;
+                                    }
+                                    None => break,
+                                }
+                            }
+                            if !chain.is_empty() {
+                                let _ = write!(o, ",\"alloc_chain\":{}", jlist(&chain));
+                            }
                         }
                     }
                 }
